@@ -68,6 +68,8 @@ IpaRoundGuard(entry) == IF entry = "check" THEN "err" ELSE "none"
 DefaultLCKeyedByPointLabel == ~Fixed
 \* univariate Ligero: zero polynomial handled by commit                     (D8, fixed)
 LigeroZeroPolyPanics == ~Fixed
+\* Brakedown: commit refuses a polynomial that does not fit the parameters' matrix shape (D15, fixed)
+BrakedownGuardsSize == Fixed
 \* linear codes: setup refuses num_vars = 0                                   (D14, fixed)
 LinCodeRefusesZeroVars == Fixed
 \* KZG-family commit accepts hiding_bound = Some(0) (blinds with a degree-1 polynomial); known finding D13
